@@ -458,8 +458,20 @@ for V_x in V_s:
                 not why, key='; '.join(why), detail='; '.join(why), loc=f.loc())
         # placeholder handling uses a value test, and zero-weight ranks are skipped
         skips = [e for e in fl.of('continue')]
-        oks = len(skips) == 2 and all(any('== 0' in g.text() for g in e.guards) for e in skips)
-        R.check('5.skip', 'GUARD', site, 'only ranks with zero weight are skipped', oks,
+        def zero_weight(e):
+            lp = e.loops[-1] if e.loops else None
+            if lp is None or len(e.guards) != 1 or not e.guards[0].positive:
+                return False
+            c = fl.tab.atom('elem', ((pe['C'] if lp is l1 else cprime), lp.index))
+            return fl.tab.equal(e.guards[0].rf, spec(fl, 'c == 0', {'c': c}))
+        oks = len(skips) == 2 and all(zero_weight(e) for e in skips)
+        # the between-rank term must not depend on whether the rank has a variance yet
+        dev_ev = [e for e in sq if not fl.tab.equal(e.value, c2 * v2)]
+        for e in dev_ev:
+            for g in e.guards:
+                if g.rf is not None and g.rf.mentions(lambda a: a.head == 'elem' and fl.tab.equal(a.args[0], pe['V'])):
+                    oks = False
+        R.check('5.skip', 'GUARD', site, 'only ranks with zero weight are skipped; the between-rank term c_i (m_i - m)^2 does not depend on the rank having a variance', oks,
                 key=str([[g.text() for g in e.guards] for e in skips]),
                 detail=str([[g.text() for g in e.guards] for e in skips]), loc=f.loc())
     # compute_error feeds OnlineVariance with the yielded weight
@@ -494,6 +506,7 @@ MUTANTS = [
     ('regress-f14', UM, 'if not _missing(var):', 'if var is not np.nan:', '4.identity'),
     ('welford-old', UM, 'self.M2 += weight * (value - mean_old) * (value - self.mean)', 'self.M2 += weight * (value - mean_old) * (value - mean_old)', '5.update'),
     ('welford-w', UM, 'self.mean = mean_old + weight / self.wcount * (value - mean_old)', 'self.mean = mean_old + 1 / self.count * (value - mean_old)', '5.update'),
+    ('seed-C18A-skip-novar', UM, 'if cnt == 0.0:\n                continue\n            if cnt > 0.0:', 'if cnt == 0.0 or _missing(var):\n                continue\n            if cnt > 0.0:', '5.skip'),
     ('combine-novar', UM, "                squares += cnt * var", "                squares += var", '5.combine'),
     ('combine-size', UM, 'return (average, squares / size)', 'return (average, squares / (size - 1))', '5.combine'),
     ('feed-weight', SM, 'native_spectrum.update(native, weight=weight)', 'native_spectrum.update(native)', '5.feed'),
